@@ -16,6 +16,8 @@ Trace == ndJsonDeserialize(IOEnv.IN_FILE)
 AppendOpt == [format |-> "TXT", charset |-> "UTF-8",
               openOptions |-> <<"WRITE", "CREATE", "APPEND">>]
 
+RECURSIVE FoldSum(_)
+FoldSum(sq) == IF sq = <<>> THEN 0 ELSE Head(sq) + FoldSum(Tail(sq))
 KeySeq == <<"a", "b">>
 NoQ == [i \in 1..Len(KeySeq) |-> 0]
 KeyIx(k) == CHOOSE i \in 1..Len(KeySeq) : KeySeq[i] = k
@@ -28,6 +30,10 @@ tvars == <<l, g, calls, nds>>
 
 G(view, type, ds, qmd) == [view |-> view, type |-> type, ds |-> ds, qmd |-> qmd]
 
+RECURSIVE NRoots(_)
+(* (a dataset node is a root whatever its own arguments hold: a "skim" dataset carries another dataset's query there) *)
+NRoots(t) == IF IsCallOf(t, "EventDataset") THEN 1 ELSE FoldSum([i \in 1..Len(t.a) |-> NRoots(t.a[i])])
+
 (* the stream an action creates, per the abstract design; <<>> if it creates none *)
 Created(a, gs, n) ==
     CASE a.act = "NewDataset" -> <<G(Fn("EventDataset", <<>>), a.op, n + 1, NoQ)>>
@@ -36,6 +42,8 @@ Created(a, gs, n) ==
       [] a.act = "Derive" ->
            <<G(Fn(a.op, <<gs[a.s].view, Emitted(a.t, gs[a.s].type)>>), StreamType(a.op, a.t, gs[a.s].type),
                gs[a.s].ds, gs[a.s].qmd)>>
+      [] a.act = "DeriveCross" ->
+           <<G(Fn("Select", <<gs[a.s].view, Lam1("e", gs[a.c].view)>>), "Any", gs[a.s].ds, gs[a.s].qmd)>>
       [] a.act = "MetaData" ->
            <<G(Fn("MetaData", <<gs[a.s].view, a.t>>), gs[a.s].type, gs[a.s].ds, gs[a.s].qmd)>>
       [] a.act = "QMetaData" ->
@@ -75,8 +83,9 @@ Clauses(r, gs, cs, n) ==
                         /\ r.done[1].val = a.v
                    ELSE r.done = <<>>
         noexc == r.exc = ""
+        (* find_EventDataset: the one dataset of the query; a query that holds several dataset nodes is rejected (0) *)
         findroot == /\ Len(r.roots) = Len(newg)
-                    /\ \A s \in 1..Len(newg) : r.roots[s] = newg[s].ds
+                    /\ \A s \in 1..Len(newg) : r.roots[s] = (IF NRoots(newg[s].view) > 1 THEN 0 ELSE newg[s].ds)
         mixrej == \A i \in 1..Len(r.mix) : r.mix[i].raised
     IN (IF imm THEN <<>> ELSE <<"Imm">>) \o (IF wrap THEN <<>> ELSE <<"Wrap">>)
        \o (IF ntype THEN <<>> ELSE <<"NewType">>) \o (IF qmd THEN <<>> ELSE <<"Qmd">>)
